@@ -606,7 +606,8 @@ def check_eval(ctx, crit, enc, prob, rec, tr, vecs):
             ctx.check(ckw == (spec.get("kw") or {}), "evalfn.transformation_kwargs",
                       lambda: "%s transformation got kwargs %r, declared %r" % (role, ckw, spec.get("kw")))
         n_aff = sum(1 for r in ("obj", "ineq", "eq") if tr[r]["kind"] == "affine")
-        ctx.check(len(calls) == n_aff, "evalfn.transformation_call_count", lambda: "%d calls, %d declared closures" % (len(calls), n_aff))
+        # informational: calling a declared transformation more than once (e.g. for caching) would not break the property
+        ctx.label("info:transformation_called_other_than_once", len(calls) != n_aff)
         for j, (role, wkey) in enumerate((("obj", "obj_wt"), ("ineq", "ineq_wt"), ("eq", "eq_wt"))):
             exp, etol = expected_part(tr[role], tr[wkey], x, lat)
             got = numpy.asarray(out[j])
